@@ -295,7 +295,30 @@ func ruleFutureOrder(c *Ctx, r *R) {
 			r.ok(retd, name+"|returns-x#"+itoa(n), ld.Pos(), "the value delivered must be the filled x")
 		})
 		if n == 0 {
-			r.violated(name+"|read-x", fn.Pos(), "the filled value is never read")
+			// Wait written as WaitContext under a context that is never done: the read is WaitContext's (decided there)
+			delegated := false
+			if wc := c.fn("xsync.Future.WaitContext"); wc != nil && wc != fn {
+				instrs(fn, func(b *ssa.BasicBlock, i int, in ssa.Instruction) {
+					ret, ok := in.(*ssa.Return)
+					if !ok || len(ret.Results) != 1 {
+						return
+					}
+					ex, ok := ret.Results[0].(*ssa.Extract)
+					if !ok || ex.Index != 0 {
+						return
+					}
+					call, ok := ex.Tuple.(*ssa.Call)
+					if !ok || staticCallee(&call.Call) != wc || len(call.Call.Args) != 2 {
+						return
+					}
+					if bg, ok := call.Call.Args[1].(*ssa.Call); ok {
+						if cal := bg.Call.StaticCallee(); cal != nil && cal.Pkg != nil && cal.Pkg.Pkg.Path() == "context" && (cal.Name() == "Background" || cal.Name() == "TODO") {
+							delegated = true
+						}
+					}
+				})
+			}
+			r.ok(delegated, name+"|read-x", fn.Pos(), "the filled value is never read (nor obtained from WaitContext under a context that is never done)")
 		}
 	}
 	nf := c.fn("xsync.NewFuture")
@@ -486,6 +509,14 @@ func ruleWatchable(c *Ctx, r *R) {
 		ret, ok := in.(*ssa.Return)
 		if !ok || len(ret.Results) != 2 {
 			return
+		}
+		// `return w.Value()`: a retry from the top; decided at the returns it ends in
+		if e0, ok := ret.Results[0].(*ssa.Extract); ok {
+			if e1, ok := ret.Results[1].(*ssa.Extract); ok && e0.Tuple == e1.Tuple && e0.Index == 0 && e1.Index == 1 {
+				if call, ok := e0.Tuple.(*ssa.Call); ok && staticCallee(&call.Call) == val {
+					return
+				}
+			}
 		}
 		n++
 		key := "xsync.Watchable.Value|return#" + itoa(n)
